@@ -219,6 +219,20 @@ def make_session(rng, version, fws, extra_nodes=()):
     for n in list(nodes) + list(extra_nodes):
         ops.append(("L", f"{n};255;0;0;17;{version}\n"))
         expect.append(None)
+    # an earlier build loaded under the same (type, version) and partly served to another node before
+    # the image of this session replaces it: nothing of the earlier build may be served afterwards
+    used = set(nodes) | set(extra_nodes)
+    for t, v, img, nids in fws:
+        if rng.random() < 0.5:
+            p = next(k for k in range(200, 255) if k not in used)
+            used.add(p)
+            old = bytes(rng.randrange(256) for _ in range(rng.choice([1, 16, 100, 128, 200, len(img), len(img) + 130])))
+            ops.append(("L", f"{p};255;0;0;17;{version}\n"))
+            ops.append(("U", [p], t, v, old))
+            ops.append(("L", f"{p};255;4;0;0;{pack_words(t, v, 0, 0, 0)}\n"))
+            for i in sorted({0, rng.randrange((len(old) // 128 + 1) * 8), (len(old) // 128 + 1) * 8 - 1}):
+                ops.append(("L", f"{p};255;4;0;2;{pack_words(t, v, i)}\n"))
+            expect.extend([None] * (len(ops) - len(expect)))
     for t, v, img, nids in fws:
         ops.append(("U", list(nids), t, v, bytes(img)))
         expect.append(None)
@@ -527,7 +541,7 @@ def hex_cases(tier, rng):
             img = rand_image(rng, size)
             cases.append((f"plain/{reclen}/{base:#x}/{size}", write_ihex(img, base, reclen), img,
                           ("plain", base, reclen, img)))
-    variants = 120 if tier == "quick" else 1500
+    variants = (120 if tier == "quick" else 1500) * common.effort(tier)
     for _ in range(variants):
         size = rng.choice([1, 5, 16, 33, 100, 257, 600])
         reclen = rng.choice(reclens + [7, 64])
@@ -572,7 +586,7 @@ def hex_cases(tier, rng):
     cases.append(("only-eof", ":00000001FF\n", b"", None))
     cases.append(("blank-lines", "\n\r\n\n", b"", None))
     # damaged files: correspondence only
-    damaged = 80 if tier == "quick" else 1200
+    damaged = (80 if tier == "quick" else 1200) * common.effort(tier)
     for _ in range(damaged):
         size = rng.choice([1, 16, 40, 100])
         reclen = rng.choice([4, 16, 32])
